@@ -220,9 +220,36 @@ def run_driver(lines):
 
 
 # ---------------------------------------------------------------- implementation side
-def safe(f, *a):
+class Hang(BaseException):
+    """raised by the per-case time limit (BaseException: not swallowed by `except Exception` in the library)"""
+
+
+CASE_LIMIT_S = float(os.environ.get('VERIF_CASE_LIMIT', '30'))
+HANGS = [0]          # after 3 time-outs the run stops feeding cases to the implementation
+
+
+def limited(f, *a):
+    """f(*a) under a wall-clock limit: a change that makes the implementation loop forever must end
+    as a reported failing input, not as a hanging check (nested inner timers of a property module win)"""
+    import signal
+
+    def on_alarm(signum, frame):
+        raise Hang()
+    old = signal.signal(signal.SIGALRM, on_alarm)
+    signal.setitimer(signal.ITIMER_REAL, CASE_LIMIT_S)
     try:
         return f(*a)
+    finally:
+        signal.setitimer(signal.ITIMER_REAL, 0)
+        signal.signal(signal.SIGALRM, old)
+
+
+def safe(f, *a):
+    try:
+        return limited(f, *a)
+    except Hang:
+        HANGS[0] += 1
+        return "HANG"
     except Exception as e:  # the error branch is part of the correspondence
         return "ERR"
 
@@ -328,7 +355,7 @@ def check_property(mod, tier, seed, replay=None):
     errs = 0
     impl_out = {}
     for c in with_line:
-        io = safe(mod.impl, c)
+        io = safe(mod.impl, c) if HANGS[0] < 3 else 'SKIPPED-AFTER-HANGS'
         impl_out[id(c)] = io
         kinds[c.kind] = kinds.get(c.kind, 0) + 1
         if io == 'ERR':
@@ -344,7 +371,10 @@ def check_property(mod, tier, seed, replay=None):
 
     def probe(c):
         try:
-            why = mod.oracle(c)
+            why = limited(mod.oracle, c)
+        except Hang:
+            HANGS[0] += 1
+            why = "the implementation did not return within %.0f s on this input" % CASE_LIMIT_S
         except Exception as e:
             why = "oracle raised %s: %s" % (type(e).__name__, e)
             if os.environ.get('VERIF_DEBUG'):
@@ -356,6 +386,8 @@ def check_property(mod, tier, seed, replay=None):
 
     if hasattr(mod, 'oracle'):
         for c in diffs + [c for c in cases if c not in diffs]:
+            if HANGS[0] >= 3 and failures:
+                break
             oracle_runs += 1
             probe(c)
         if problems and not [f for f in failures if f[2] is None] and not replay:
